@@ -28,9 +28,32 @@ theorem watcher_relays_ctx (s : St) (e : CtxErr) (h : WF s) (hs : s.streaming = 
 
 /-- `WF` holds in every state of every run, for both kinds of RPC, any initial picker / quota
     situation, any event sequence and any select choices. -/
-theorem wf_reachable (streaming ready : Bool) (squota reqSz : Nat) (pref : Nat → Bool) (es : List Ev) :
-    WF (run pref 0 (St.init streaming ready squota reqSz) es) :=
-  wf_run pref es 0 (wf_init streaming ready squota reqSz)
+theorem wf_reachable (streaming ready : Bool) (squota reqSz : Nat) (serverStreams : Bool) (pref : Nat → Bool) (es : List Ev) :
+    WF (run pref 0 (St.init streaming ready squota reqSz serverStreams) es) :=
+  wf_run pref es 0 (wf_init streaming ready squota reqSz serverStreams)
+
+/-- C22 "the handler's context is cancelled when the client cancels", client half, and "regardless of
+    where it is blocked" for the time the application is NOT inside a grpc call: for EVERY stream the
+    application created through `ClientConn.NewStream` — whatever its StreamDesc (client-streaming,
+    server-streaming, both, or neither) — and at EVERY point after creation (in application code
+    between two calls, or parked in any of the selects), a cancel / expired deadline closes the
+    transport stream in that very step: `s.done` is closed, RST_STREAM(CANCEL) is on the wire and the
+    status is fixed to the context's code. (`cc.Invoke` needs no watcher: it is always inside a call.) -/
+theorem cancel_anywhere_releases_stream (b : Bool) (s : St) (e : CtxErr) (h : WF s) (hs : s.streaming = true)
+    (hcr : s.created = true) (hc : s.ctx = none) (hsd : s.sdone = false) :
+    (step b s (.ctxFire e)).sdone = true ∧ (step b s (.ctxFire e)).rstSent = true
+      ∧ (step b s (.ctxFire e)).finished = some (codeOfCtx e) :=
+  ctxFire_releases e h hs hcr hc hsd
+
+/-- … and the RST_STREAM cancels the handler's context (composition with `server_ctx_cancelled_on_rst`
+    below is immediate); the next RecvMsg of the application then returns that code at once. -/
+theorem released_stream_recv_returns_code (b : Bool) (s : St) (c : Nat) (hp : s.pc = .app) (hh : s.hdr = true)
+    (hsd : s.sdone = true) (hb : s.buf = [.err c]) : (step b s .appRecv).pc = .returned c := by
+  have w : wake b { s with pc := .parked .recv } = some { s with pc := .returned c } := by
+    simp only [wake]
+    rw [recvClose_sdone (by simpa using hsd)]
+    simp [takeHead, hb]
+  rw [step_appRecv hp hh, resume_some w, resume_none (wake_returned _ _ _ rfl)]
 
 /-! ## Terminal code ∈ {DEADLINE_EXCEEDED, CANCELLED}, wherever the RPC is blocked -/
 
@@ -68,7 +91,7 @@ theorem parked_wquota_unblocked (b b' : Bool) (s : St) (e : CtxErr) (h : WF s)
 /-- … and the application's following RecvMsg calls drain the k messages that were already buffered
     and then return that code (the documented recv-buffer drain delay: k more calls, no waiting). -/
 theorem finished_stream_returns_code (pref : Nat → Bool) (c k n : Nat) (s : St) (hp : s.pc = .app)
-    (hs : s.streaming = true) (hh : s.hdr = true) (hsd : s.sdone = true)
+    (hs : s.serverStreams = true) (hh : s.hdr = true) (hsd : s.sdone = true)
     (hb : s.buf = List.replicate k Item.msg ++ [.err c]) :
     (run pref n s (List.replicate (k + 1) .appRecv)).pc = .returned c :=
   (drain_returns pref c k n s hp hs hh hsd hb).1
@@ -152,6 +175,13 @@ theorem server_ctx_err_sticky (s : Srv) (e : CtxErr) (ev : SEv) (h : s.err = som
   cases ev <;> simp [sstep, h]
 
 /-! ## Non-vacuity -/
+
+-- a unary-shaped stream made with NewStream (neither ClientStreams nor ServerStreams), request sent, the
+-- application not inside any call: cancel closes the stream and sends RST_STREAM
+example : let s := run (fun _ => false) 0 (St.init true true 1 1 false) [.pickerReady, .appSend 10, .ctxFire .canceled]
+    s.pc = .app ∧ s.sdone = true ∧ s.rstSent = true ∧ s.finished = some 1 := by decide
+example : (run (fun _ => false) 0 (St.init true true 1 1 false) [.pickerReady, .appSend 10, .ctxFire .canceled, .appRecv]).pc
+    = .returned 1 := by decide
 
 -- a unary RPC with no READY subchannel parks in pick; cancel → CANCELLED
 example : (run (fun _ => true) 0 (St.init false false 1) [.ctxFire .canceled]).pc = .returned 1 := by decide
